@@ -9,6 +9,7 @@ Driver for the enum area: decodes one case, prints the region and the model / sp
   (case <id> c12t   (type …) (blocks B…) (ints v…))
   (case <id> c14    (type …) (blocks B…) (hi N) (neg v…))
   (case <id> c14raw (type …) (blocks B…))
+  (case <id> c01enum (flags …) (mode type|list|file|star) (types ("T" <kind> [sel])…) (blocks B…))      -- C01 leg
   B = (b S…)   S = (s (n "A" "B"…) (t "T")|(c)|(e -|"T") (v 1 2…))
 -/
 namespace ShootVerif.Drive
@@ -276,5 +277,43 @@ def c14rawCase (id : String) (payload : List Sexp) : List String :=
     match gen i.T i.blocks with
     | .file cs => both id [("compile", if compiles true i.T cs then "ok" else "error")] [("compile", "ok")] reg
     | _ => both id [] [] "Out"
+
+/-! ### C01 leg -/
+
+/-- kind name ↦ (kind, listed by ListTypes) -/
+def kindOfName (k : String) : Option (Kind × Bool) :=
+  match k with
+  | "int" => some (⟨true, 64⟩, true) | "uint" => some (⟨false, 64⟩, true)
+  | "int8" => some (⟨true, 8⟩, false) | "uint8" => some (⟨false, 8⟩, false)
+  | "int16" => some (⟨true, 16⟩, false) | "uint16" => some (⟨false, 16⟩, false)
+  | "int32" => some (⟨true, 32⟩, true) | "uint32" => some (⟨false, 32⟩, true)
+  | "int64" => some (⟨true, 64⟩, false) | "uint64" => some (⟨false, 64⟩, false)
+  | _ => none
+
+/-- `(case <id> c01enum (flags bit json text sql gorm) (mode type|list|file|star)
+      (types ("T" <kind> [sel]) …) (blocks B…))` -/
+def c01enumCase (id : String) (payload : List Sexp) : List String :=
+  let p := Sexp.list (.atom "p" :: payload)
+  let fl := (p.field? "flags").getD (.list [])
+  let mode := match p.field? "mode" with
+    | some (.list [_, .atom m]) => m
+    | _ => ""
+  let tys : List (Name × Bool × Bool) := ((p.field? "types").map (·.args)).getD [] |>.filterMap (fun t =>
+    match t with
+    | .list (.atom n :: .atom k :: rest) => (kindOfName k).map (fun kk => (nm n, kk.2, rest == [.atom "sel"]))
+    | _ => none)
+  match (p.field? "blocks").bind (fun b => b.args.mapM (fun bl => bl.args.mapM parseSpec)) with
+  | none => err id "bad-enum-case"
+  | some blocks =>
+    let selected := if mode == "file" || mode == "star" then (tys.filter (·.2.1)).map (·.1) else (tys.filter (·.2.2)).map (·.1)
+    let wf := blocks.all (fun b => b.all (fun s => s.names.length == s.vals.length)) && !tys.isEmpty
+    let pc : PkgCase := { bit := fl.hasFlag "bit", sql := fl.hasFlag "sql", gorm := fl.hasFlag "gorm",
+                          types := selected, blocks := blocks, wellFormed := wf }
+    let (ex, written, comp) := c01Model pc
+    let model : List (String × String) :=
+      if ex != 0 then [("exit", toString ex)]
+      else [("exit", "0"), ("compile", if comp then "ok" else "error"),
+            ("header", if written then "ok" else "none-written"), ("gofmt", "ok"), ("package", "ok")]
+    both id model [("exit", "0"), ("compile", "ok"), ("header", "ok"), ("gofmt", "ok"), ("package", "ok")] (c01Region pc)
 
 end ShootVerif.Drive
